@@ -1327,6 +1327,15 @@ impl Value {
             });
         }
         let idx = parser.read.index();
+        // an unterminated string is only stopped by the quote inside the padding: the parser
+        // must not report that it consumed more than the input
+        if idx > json.len() {
+            return Err(crate::Error::syntax(
+                crate::error::ErrorCode::EofWhileParsing,
+                json,
+                json.len(),
+            ));
+        }
 
         // NOTE: root node should is the first node
         *self = unsafe { vis.root.as_ref().clone() };
